@@ -106,6 +106,10 @@ def execOp (chk : Bool) (tok : List String) : String :=
   | ["felt_div", a, b] => renderRes toString (Zq.div chk (parseNat a) (parseNat b))
   | ["felt_inv", a] => renderRes toString (Zq.inv chk (parseNat a))
   | ["felt_batch_inv", l] => renderRes renderInts (Zq.batchInv chk (parseNats l))
+  | ["felt_hadamard_div", a, b] =>
+      renderRes renderInts (do
+        let inv ← Zq.batchInv chk (parseNats b)
+        (List.zip (parseNats a) inv).mapM fun (x, y) => Zq.mul chk x y)
   | ["felt_new_all"] => renderInts ((rangeInts (-32768) 65536).map Zq.new)
   | ["felt_row", op, a] =>
       let a := parseNat a
